@@ -2,8 +2,9 @@ import PtnModel.Props.C07Dense
 import PtnModel.Props.C07JW
 import PtnModel.Props.C05Total
 import PtnModel.Proofs.TotalMol
+import PtnModel.Proofs.TotalSpinMol
 /-!
-# Property C07, totality: the bond-optimized spinless molecular construction returns
+# Property C07, totality: the bond-optimized molecular constructions return
 
 `Props/C07.lean`, `C07Dense.lean`, `C07JW.lean` describe the MPO of `molecular_hamiltonian_mpo(tkin, vint, optimize=True)` *whenever the
 constructor returns*.  Here it is shown to return -- shape assertion, chain enumeration, `OpGraph.from_opchains` (its assertion on
@@ -19,7 +20,15 @@ fails when nothing is left.  So the constructor returns iff some `t_ij ≠ 0` or
 Ingredient beyond C05: every chain of the enumeration is Jordan-Wigner shaped (`JW`: the interleaved charges follow the operators:
 `a†` raises, `a` lowers, `n`, `I`, `Z` keep the charge), hence charge consistent under `qd = [0, 1]` for the tables of `molOpmap`.
 
-The spin-orbital construction (`spin_molecular_hamiltonian_mpo(…, optimize=True)`) is not covered: see `obligations/C07.json`.
+Spin-orbital construction (`spin_molecular_hamiltonian_mpo(…, optimize=True)`): the same chains on `2 L` modes, restricted to the
+spin-conserving index tuples, are converted by `to_spin_opchain` into chains over the pair tables `kron(op_up, op_dn)` with the
+encoded bond charges `(N << 16) + S`.  `SpinMolNonzero c tkin vint` (decidable, `Proofs/TotalSpinMol.lean`): some chain of that
+enumeration has a non-zero coefficient (the coefficients are `t_{i/2, j/2}` for mode pairs of equal spin and the value returned by
+`get_vint_coeff` for the valid spin patterns; `to_spin_opchain` keeps them).  Ingredient: every pair table shifts `(N, S)` by
+`(ch x + ch y, ch x - ch y)` (`kron` of two single-mode tables of charges `ch x`, `ch y`), which is exactly the jump of the converted
+bond charges, so the converted chains are charge consistent under `spinQd` / `spinMolOpmap`.
+
+The explicit (`optimize=False`) constructions are not covered: see `obligations/C07.json`.
 -/
 set_option linter.unusedSectionVars false
 
@@ -37,37 +46,64 @@ theorem molecular_chains_charged (c : Consts κ) (tkin : List (List κ)) (vint :
         (molIntIdx (tkin.length : Int)).map (fun x => gint c vint x.1 x.2.1 x.2.2.1 x.2.2.2) :=
   molChains_jw c tkin vint
 
-/-- **`molecular_hamiltonian_mpo(tkin, vint, optimize=True)` returns exactly when some chain survives**: for `L = len(tkin) ≥ 1` the
-constructor returns iff the tensors have the shapes `(L, L)`, `(L, L, L, L)` and some `t_ij` or some `g_ijkl` (`i < j`, `k < l`) is
-non-zero.  (Spinless construction only; the spin-orbital construction is not covered.) -/
-theorem optimized_returns_partial (c : Consts κ) (tkin : List (List κ)) (vint : List (List (List (List κ))))
-    (hL : 1 ≤ tkin.length) :
-    (∃ b, molBuildOpt c tkin vint = .ok b) ↔ (shapesOk tkin vint = true ∧ MolNonzero c tkin vint) :=
-  ⟨fun ⟨b, hb⟩ => molBuildOpt_only_if c tkin vint b hb hL, fun ⟨h1, h2⟩ => molBuildOpt_total c tkin vint h1 hL h2⟩
+/-- every chain of the bond-optimized spin-orbital enumeration is well formed and charge consistent under the encoded `(N, S)` charges
+and the pair tables (`SpinP κ o q0 q1`: the table of `o` exists, is `4 × 4`, and every non-zero entry `[s, t]` has
+`spinQd[s] - spinQd[t] + q0 - q1 = 0`) -/
+theorem spin_molecular_chains_charged (c : Consts κ) (tkin : List (List κ)) (vint : List (List (List (List κ)))) :
+    ∃ chains, spinMolChains c tkin vint = .ok chains ∧
+      ∀ ch ∈ chains, ChainWF (tkin.length : Int) ch ∧ chOK (SpinP κ) ch.oids ch.qnums :=
+  spinMolChains_charged c tkin vint
 
-/-- **The bond-optimized spinless molecular MPO, unconditional.**  For every `L = len(tkin) ≥ 1`, well-shaped coefficient tensors and
-`MolNonzero`: the constructor returns an MPO with `L` sites of dimension 2 whose dense matrix is the sum of the enumerated chains
-(`MPO.DenseIs`, both `as_matrix()` paths), every tensor is block sparse under `qd = [0, 1]`, and the matrix elements are those of the
-documented second-quantized operator `Σ_ij t_ij a†_i a_j + ½ Σ_ijkl v_ijkl a†_i a†_j a_l a_k` under the Jordan-Wigner matrices.
-(Spinless construction only.) -/
-theorem optimized_dense_total_partial (c : Consts κ) (tkin : List (List κ)) (vint : List (List (List (List κ))))
-    (hL : 1 ≤ tkin.length) (hsh : shapesOk tkin vint = true) (hnz : MolNonzero c tkin vint) :
-    ∃ b chains, molBuildOpt c tkin vint = .ok b ∧ molChains c tkin vint = .ok chains ∧
-      MPO.DenseIs (b.mpo.toMPO [0, 1]) 2 tkin.length (termsEntry molOpmap (denChainsRaw chains (tkin.length : Int) 0)) ∧
-      b.Sparse ∧
-      ∀ s t : List Nat, Digits 2 tkin.length s → Digits 2 tkin.length t →
-        (b.mpo.toMPO [0, 1]).elem s t =
-          ((List.range tkin.length).map fun (i : Nat) => ((List.range tkin.length).map fun (j : Nat) =>
-            t2 tkin (i : Int) (j : Int) * sumDigits 2 tkin.length (fun u =>
-              wordWeight molOpmap (jwC tkin.length i) s u * wordWeight molOpmap (jwA tkin.length j) u t)).sum).sum +
-          ((List.range tkin.length).map fun (i : Nat) => ((List.range tkin.length).map fun (j : Nat) =>
-            ((List.range tkin.length).map fun (k : Nat) => ((List.range tkin.length).map fun (l : Nat) =>
-              (c.half * v4 vint (i : Int) (j : Int) (k : Int) (l : Int)) * jw4 tkin.length i j k l s t).sum).sum).sum).sum := by
-  obtain ⟨b, hb⟩ := molBuildOpt_total c tkin vint hsh hL hnz
+/-- **The bond-optimized constructions return exactly when some chain survives.**  For `L = len(tkin) ≥ 1`:
+`molecular_hamiltonian_mpo(tkin, vint, optimize=True)` returns iff the tensors have the shapes `(L, L)`, `(L, L, L, L)` and some `t_ij`
+or some `g_ijkl` (`i < j`, `k < l`) is non-zero (`MolNonzero`); `spin_molecular_hamiltonian_mpo(tkin, vint, optimize=True)` returns iff
+the shapes are right and some chain of its enumeration has a non-zero coefficient (`SpinMolNonzero`).  In both cases every step
+succeeds: shape assertion, enumeration (incl. `to_spin_opchain`), `from_opchains`, the `is_consistent` assertion, `from_opgraph` with
+its final `is_qsparse` assertion. -/
+theorem optimized_returns (c : Consts κ) (tkin : List (List κ)) (vint : List (List (List (List κ))))
+    (hL : 1 ≤ tkin.length) :
+    ((∃ b, molBuildOpt c tkin vint = .ok b) ↔ (shapesOk tkin vint = true ∧ MolNonzero c tkin vint)) ∧
+    ((∃ b, spinMolBuildOpt c tkin vint = .ok b) ↔ (shapesOk tkin vint = true ∧ SpinMolNonzero c tkin vint)) :=
+  ⟨⟨fun ⟨b, hb⟩ => molBuildOpt_only_if c tkin vint b hb hL, fun ⟨h1, h2⟩ => molBuildOpt_total c tkin vint h1 hL h2⟩,
+   ⟨fun ⟨b, hb⟩ => spinMolBuildOpt_only_if c tkin vint b hb hL, fun ⟨h1, h2⟩ => spinMolBuildOpt_total c tkin vint h1 hL h2⟩⟩
+
+/-- **The bond-optimized molecular MPOs, unconditional.**  For every `L = len(tkin) ≥ 1` and well-shaped coefficient tensors:
+* spinless, `MolNonzero`: the constructor returns an MPO with `L` sites of dimension 2 whose dense matrix is the sum of the enumerated
+  chains (`MPO.DenseIs`, both `as_matrix()` paths), every tensor is block sparse under `qd = [0, 1]`, and the matrix elements are those
+  of the documented second-quantized operator `Σ_ij t_ij a†_i a_j + ½ Σ_ijkl v_ijkl a†_i a†_j a_l a_k` under the Jordan-Wigner matrices;
+* spin-orbital, `SpinMolNonzero`: the constructor returns an MPO with `L` sites of dimension 4 whose dense matrix is the sum of the
+  enumerated chains over the pair tables, block sparse under the encoded `(N, S)` charges.  (The interpretation of that sum as the
+  second-quantized spin-orbital operator is not part of this statement.) -/
+theorem optimized_dense_total (c : Consts κ) (tkin : List (List κ)) (vint : List (List (List (List κ))))
+    (hL : 1 ≤ tkin.length) (hsh : shapesOk tkin vint = true) :
+    (MolNonzero c tkin vint →
+      ∃ b chains, molBuildOpt c tkin vint = .ok b ∧ molChains c tkin vint = .ok chains ∧
+        MPO.DenseIs (b.mpo.toMPO [0, 1]) 2 tkin.length (termsEntry molOpmap (denChainsRaw chains (tkin.length : Int) 0)) ∧
+        b.Sparse ∧
+        ∀ s t : List Nat, Digits 2 tkin.length s → Digits 2 tkin.length t →
+          (b.mpo.toMPO [0, 1]).elem s t =
+            ((List.range tkin.length).map fun (i : Nat) => ((List.range tkin.length).map fun (j : Nat) =>
+              t2 tkin (i : Int) (j : Int) * sumDigits 2 tkin.length (fun u =>
+                wordWeight molOpmap (jwC tkin.length i) s u * wordWeight molOpmap (jwA tkin.length j) u t)).sum).sum +
+            ((List.range tkin.length).map fun (i : Nat) => ((List.range tkin.length).map fun (j : Nat) =>
+              ((List.range tkin.length).map fun (k : Nat) => ((List.range tkin.length).map fun (l : Nat) =>
+                (c.half * v4 vint (i : Int) (j : Int) (k : Int) (l : Int)) * jw4 tkin.length i j k l s t).sum).sum).sum).sum) ∧
+    (SpinMolNonzero c tkin vint →
+      ∃ b chains, spinMolBuildOpt c tkin vint = .ok b ∧ spinMolChains c tkin vint = .ok chains ∧
+        MPO.DenseIs (b.mpo.toMPO spinQd) 4 tkin.length
+          (termsEntry spinMolOpmap (denChainsRaw chains (tkin.length : Int) 0)) ∧
+        b.Sparse) := by
   have hL' : 1 ≤ (tkin.length : Int) := by omega
-  obtain ⟨chains, hch, _, _, _, hd⟩ := (optimized_dense c tkin vint hL').1 b hb
-  exact ⟨b, chains, hb, hch, hd, (molecular_mpo_block_sparse c tkin vint).1 b hb,
-    molecular_chain_sum_jw c tkin vint hL' b hb⟩
+  constructor
+  · intro hnz
+    obtain ⟨b, hb⟩ := molBuildOpt_total c tkin vint hsh hL hnz
+    obtain ⟨chains, hch, _, _, _, hd⟩ := (optimized_dense c tkin vint hL').1 b hb
+    exact ⟨b, chains, hb, hch, hd, (molecular_mpo_block_sparse c tkin vint).1 b hb,
+      molecular_chain_sum_jw c tkin vint hL' b hb⟩
+  · intro hnz
+    obtain ⟨b, hb⟩ := spinMolBuildOpt_total c tkin vint hsh hL hnz
+    obtain ⟨chains, hch, _, _, _, hd⟩ := (optimized_dense c tkin vint hL').2 b hb
+    exact ⟨b, chains, hb, hch, hd, (molecular_mpo_block_sparse c tkin vint).2.2.1 b hb⟩
 
 /-- non-vacuity: two orbitals with a single non-zero hopping coefficient `t_01 = 5` and vanishing interaction satisfy the condition;
 the all-zero tensors do not (and the constructor then fails `from_opchains`' assertion) -/
@@ -78,5 +114,11 @@ example :
   refine ⟨by decide, by decide, by decide⟩
 
 example : molBuildOpt (⟨0, fun _ => 0⟩ : Consts Int) [[0]] [[[[0]]]] = .error .assertion := by rfl
+
+/-- non-vacuity of the spin-orbital condition: one spatial orbital with `t_00 = 3` satisfies it (the two chains `3 · n_up`,
+`3 · n_dn`), the all-zero tensors do not -/
+example : SpinMolNonzero (⟨0, fun _ => 0⟩ : Consts Int) [[3]] [[[[0]]]] ∧
+    ¬ SpinMolNonzero (⟨0, fun _ => 0⟩ : Consts Int) [[0]] [[[[0]]]] := by
+  constructor <;> decide
 
 end Ptn.C07
